@@ -111,6 +111,8 @@ def families():
     F["bbox"] += [{"type": "bbox", "box": base, "tag": t} for t in (None, T4326("wkt2"), T4326("str_upper"), {"label": "4283", "spell": "int"}, {"label": "3857", "spell": "int"})]
     F["bbox"].append({"type": "bbox", "box": [0, 1, 2, 3], "tag": T4326()})  # ints vs floats
     F["bbox"].append({"type": "bbox", "box": [-0.0, 1.0, 2.0, 3.0], "tag": T4326()})
+    F["bbox_tiny"] = [{"type": "bbox", "box": [0.0 + d, 1.0, 2.0, 3.0], "tag": T4326()} for d in (0.0, 4e-6, 8e-6, 1.2e-5, 1e-9, 1e-12)]
+    F["xy_tiny"] = [{"type": "xy", "cls": "XY", "x": 1.0 + d, "y": 2.0} for d in (0.0, 4e-6, 8e-6, 1.2e-5, 1e-9, 1e-15)] + [{"type": "xy", "cls": "Resolution", "x": 10.0 + d, "y": -10.0} for d in (0.0, 1e-9, 2e-9)]
     from vf.props.c01 import GALLERY_A, GALLERY_B
 
     F["geom"] = []
@@ -126,6 +128,10 @@ def families():
         a[i] += 0.5
         F["geobox"].append({"type": "geobox", "shape": [3, 4], "affine": a, "tag": {"label": "3857", "spell": "int"}})
     F["geobox"].append({"type": "geobox", "shape": [3, 4], "affine": [10.0, -0.0, 100.0, 0.0, -10.0, 500.0], "tag": {"label": "3857", "spell": "int"}})
+    for i, d in ((2, 4e-6), (2, 8e-6), (2, 1.2e-5), (0, 1e-9), (0, 2e-9), (5, 1e-7), (1, 1e-12)):
+        a = list(aff)
+        a[i] += d
+        F["geobox_tiny"] = F.get("geobox_tiny", [F["geobox"][0]]) + [{"type": "geobox", "shape": [3, 4], "affine": a, "tag": {"label": "3857", "spell": "int"}}]
     F["geobox"] += [{"type": "geobox", "shape": s, "affine": aff, "tag": {"label": "3857", "spell": "int"}} for s in ([4, 3], [3, 5], [1, 4])]
     F["geobox"] += [{"type": "geobox", "shape": [3, 4], "affine": aff, "tag": t} for t in (None, {"label": "3857", "spell": "wkt2"}, {"label": "3857", "spell": "str_lower"}, {"label": "3577", "spell": "int"}, {"label": "3857", "spell": "pickle"})]
     pix = [[0, 0], [4, 0], [0, 3], [4, 3], [2, 1]]
@@ -458,6 +464,13 @@ def o_history(case, T):
             # many distinct short-lived CRSs (cache pressure): a bounded construction cache would evict and free
             # pyproj objects whose ids the transformer cache still uses as keys
             tmp = [CRS(_TMERC % ((op[1] + i) * 0.25)) for i in range(op[2])]
+            live = [o for o in objs if o[2] is not None]
+            if live:
+                # leave transformer-cache entries behind that are keyed by the ids of these short-lived objects
+                tgt = live[0][2]
+                for c in tmp[:: max(1, len(tmp) // 64)]:
+                    c.transformer_to_crs(tgt)
+                    tgt.transformer_to_crs(c)
             del tmp
             dropped = True
         elif op[0] == "drop":
